@@ -11,10 +11,10 @@ theorem inv3_undo_finish {H : Home} {N : Int} {ρ : Ticket → Ticket} {g : Hist
     {X Y : Doc} {more future : List Doc} {d' : Doc}
     (i : Inv3 H N ρ g (r :: ru) rr (X :: more) Y future)
     (hra : addId? r = none) (hpl : (fullRen ρ r).plain = true)
-    (he : uexecute g.doc g.tw .undoRedo ((fullRen ρ r).withTs g.next) = .ok (d', some (fullRen ρ qr)))
+    (he : uexecute g.doc noTw .undoRedo ((fullRen ρ r).withTs g.next) = .ok (d', some (fullRen ρ qr)))
     (hwf : WF H d') (hbd : Bounded d' (g.lamport + 1)) (hpln : PlainArrs d' (g.lamport + 1))
     (hsk : ∀ t, skel d' t = skel g.doc t) (hsim : Sim ρ N (absNode X) (absNode d'))
-    (hq : EntryM H g.tw N qr Y X)
+    (hq : EntryM H noTw N qr Y X)
     (hqa : ∀ a, addId? qr = some a → absNode Y a ≠ none ∧ absNode X a = none ∧ ArrHomed H X a)
     (hdeadX : ∀ a, a ∈ addIds ru ∨ a ∈ addIds rr → absNode X a = none) :
     ∃ rr', Inv3 H N ρ (undo g) ru rr' more X (Y :: future) ∧
@@ -42,16 +42,15 @@ theorem inv3_undo_finish {H : Home} {N : Int} {ρ : Ticket → Ticket} {g : Hist
   refine
     { wf := hd1 ▸ hwf, bd := by rw [hd1, hl1]; exact hbd, pl := by rw [hd1, hl1]; exact hpln,
       hN := by rw [hl1]; have := i.hN; omega, hN0 := i.hN0,
-      twb := by rw [htw1]; exact i.twb, wfc := en.wfX, bdc := en.bdX, plc := en.plX,
+      wfc := en.wfX, bdc := en.bdX, plc := en.plX,
       eskel := fun t => by rw [hd1, hsk, i.eskel, en.skel], sim := hd1 ▸ hsim,
       rfix := fun t ht => i.rfix t (by rw [← en.skel]; exact ht), rhead := i.rhead,
       rng := fun t ht => by rw [hl1]; have := i.rng t ht; omega, rnew := i.rnew,
       rarr := fun t ht h => (i.rarr t ht h).step hback,
       hundo := ⟨urest, by rw [hu1]⟩, hredo := ⟨rrest2, by rw [hr1, hrrest, hpt, stackOf_cons]; rfl⟩,
-      chU := htw1 ▸ chU', chR := ?_,
+      chU := chU', chR := ?_,
       uniqU := by have := i.uniqU; rwa [hru] at this, uniqR := ?_, uniqD := ?_, dead := ?_ }
-  · rw [htw1]
-    refine ⟨hq, ?_⟩
+  · refine ⟨hq, ?_⟩
     rcases hcase with rfl | ⟨rfl, _⟩
     · exact i.chR
     · exact i.chR.dropLast
@@ -92,7 +91,7 @@ theorem inv3_undo_finish {H : Home} {N : Int} {ρ : Ticket → Ticket} {g : Hist
 
 theorem inv3_undo_del {H : Home} {N : Int} {ρ : Ticket → Ticket} {g : Hist} {p u ts0 : Ticket}
     {ru rr : List UOp} {X Y : Doc} {more future : List Doc} {l : List Ticket}
-    (i : Inv3 H N ρ g (.remove p u ts0 :: ru) rr (X :: more) Y future) (gd : GoodDel g.tw Y p u l) :
+    (i : Inv3 H N ρ g (.remove p u ts0 :: ru) rr (X :: more) Y future) (gd : GoodDel noTw Y p u l) :
     ∃ rr', Inv3 H N ρ (undo g) ru rr' more X (Y :: future) ∧
       (rr'.length = rr.length + 1 ∨ maxDepth ≤ rr'.length) := by
   obtain ⟨en, chU'⟩ := i.chU
@@ -102,12 +101,7 @@ theorem inv3_undo_del {H : Home} {N : Int} {ρ : Ticket → Ticket} {g : Hist} {
   have hAu : absNode g.doc (ρ u) = some b := by
     have := i.sim.node u huN; rw [hbu] at this
     simpa [ABody.map_leaf hbl] using this
-  have htwu : g.tw (ρ u) = false := by
-    rcases i.rnew u huN with h | h
-    · rw [h]; exact gd.htw
-    · cases ht : g.tw (ρ u) with
-      | false => rfl
-      | true => have := i.twb _ ht; omega
+  have htwu : noTw (ρ u) = false := rfl
   obtain ⟨ue', hue', hul', he, hwf, hbd, hpl, hsk, hnode⟩ := step_del (src := .undoRedo) (ts := g.next) i.wf i.bd i.pl
     (by simp only [Hist.next]; omega) hAp (horph gd.horph) (List.mem_map_of_mem gd.hmem)
     ⟨b, hAu, hbl⟩ htwu rfl
@@ -120,7 +114,7 @@ theorem inv3_undo_del {H : Home} {N : Int} {ρ : Ticket → Ticket} {g : Hist} {
   have hq : UOp.add p (predOf (ρ u) (l.map ρ)) (leafCopy (ρ u) ue') g.next =
       fullRen ρ (inv3 H Y (.remove p u g.next)) := by
     rw [hinv]
-    simp only [fullRen, leafCopy, predOf_map i.sim.inj i.rhead hn hlb gd.hmem, hbody]
+    simp only [fullRen, leafCopy, predOf_map i.sim.inj i.rhead hn hlb gd.hmem, hbody, hρp]
   have hXeq : absNode X = adel (absNode Y) p u := by rw [en.back]; simp only [aexec3, gd.hp]
   have hgood := inv3_good (r := .remove p u g.next) i.wfc en.wfX i.bdc i.plc en.skel (Or.inl ⟨l, gd⟩) huN i.hN0
     (by rw [hXeq]; simp only [aexec3, gd.hp])
@@ -135,9 +129,12 @@ theorem inv3_undo_del {H : Home} {N : Int} {ρ : Ticket → Ticket} {g : Hist} {
     intro a h1 h2; rw [hXeq]; simp [adel, gd.hp, h1, h2]
   have hYu : absNode Y u ≠ none := by rw [hbu]; simp
   have hYp : absNode Y p ≠ none := by rw [gd.hp]; simp
-  refine inv3_undo_finish (qr := inv3 H Y (.remove p u g.next)) i rfl (by rfl) (by rw [← hq]; exact he) hwf
+  have hent : (fullRen ρ (.remove p u ts0)).withTs g.next = .remove p (ρ u) g.next := by
+    simp only [fullRen, UOp.withTs, hρp]
+  refine inv3_undo_finish (qr := inv3 H Y (.remove p u g.next)) i rfl (by rfl) (by rw [hent, ← hq]; exact he) hwf
     (hbd.mono (by omega)) (hpl.mono (by omega)) hsk hsimX
-    ⟨i.wfc, i.bdc, i.plc, hgood.1, hgood.2.1, fun t => (en.skel t).symm, hgood.2.2⟩ ?_ ?_
+    ⟨i.wfc, i.bdc, i.plc, hgood.1, hgood.2.1, fun t => (en.skel t).symm, hgood.2.2,
+      by rw [inv3_par]; exact en.pb⟩ ?_ ?_
   · intro a ha
     rw [hinv] at ha
     simp only [addId?, leafCopy, Option.some.injEq] at ha
@@ -163,7 +160,7 @@ theorem Inv3.obj {H : Home} {N : Int} {ρ : Ticket → Ticket} {g : Hist} {ru rr
     (hp : absNode cur p = some (.obj f)) :
     ρ p = p ∧ p.lamport ≤ N ∧ (∀ k' c, f k' = some c → ρ c = c ∧ c.lamport ≤ N) ∧
     absNode g.doc p = some (.obj f) ∧
-    (orphaned cur g.tw orphanFuel p = false → orphaned g.doc g.tw orphanFuel p = false) := by
+    (orphaned cur noTw orphanFuel p = false → orphaned g.doc noTw orphanFuel p = false) := by
   have hρp : ρ p = p := i.rfix p (by rw [skel_of_obj hp]; simp)
   have hpN : p.lamport ≤ N := absNode_some_bound i.bdc (by rw [hp]; simp)
   obtain ⟨pe, keys, member, hd, hr, hb, hf⟩ := absNode_obj hp
@@ -175,7 +172,7 @@ theorem Inv3.obj {H : Home} {N : Int} {ρ : Ticket → Ticket} {g : Hist} {ru rr
     exact ⟨i.fixed hcN hpar hp, hcN⟩
   refine ⟨hρp, hpN, hmem, i.sim.objAt hp hρp hpN (fun k' c h => (hmem k' c h).1), ?_⟩
   intro ho
-  rw [← orphaned_of_skel i.wfc i.wf (fun t => (i.eskel t).symm) g.tw _ _ (absNode_isContainer hp)]
+  rw [← orphaned_of_skel i.wfc i.wf (fun t => (i.eskel t).symm) noTw _ _ (absNode_isContainer hp)]
   exact ho
 
 /-- the present heap at an identity the renaming fixes -/
@@ -201,7 +198,7 @@ theorem removeRev_addId (H : Home) (d : Doc) (p u ts : Ticket) : addId? (removeR
 
 theorem inv3_undo_set {H : Home} {N : Int} {ρ : Ticket → Ticket} {g : Hist} {p ts0 : Ticket} {k : String}
     {val : UVal} {ru rr : List UOp} {X Y : Doc} {more future : List Doc} {f : String → Option Ticket}
-    (i : Inv3 H N ρ g (.set p k val ts0 :: ru) rr (X :: more) Y future) (gs : GoodSet H g.tw Y p k val f) :
+    (i : Inv3 H N ρ g (.set p k val ts0 :: ru) rr (X :: more) Y future) (gs : GoodSet H noTw Y p k val f) :
     ∃ rr', Inv3 H N ρ (undo g) ru rr' more X (Y :: future) ∧
       (rr'.length = rr.length + 1 ∨ maxDepth ≤ rr'.length) := by
   obtain ⟨en, chU'⟩ := i.chU
@@ -209,7 +206,7 @@ theorem inv3_undo_set {H : Home} {N : Int} {ρ : Ticket → Ticket} {g : Hist} {
   have hidN : val.id.lamport ≤ N := en.idb
   have hρid : ρ val.id = val.id := i.fixed hidN gs.hpar gs.hp
   have hNl := i.hN
-  have gA : GoodSet H g.tw g.doc p k val f :=
+  have gA : GoodSet H noTw g.doc p k val f :=
     { hp := hAp, horph := horph gs.horph, hleaf := gs.hleaf, hsub := gs.hsub, hrem := gs.hrem, hkey := gs.hkey,
       hpar := gs.hpar, htw := gs.htw,
       hdead := by have := i.sim.node val.id hidN; rw [hρid, gs.hdead] at this; exact this,
@@ -237,21 +234,24 @@ theorem inv3_undo_set {H : Home} {N : Int} {ρ : Ticket → Ticket} {g : Hist} {
   have hfull : fullRen ρ (setRev Y p k val g.next f) = setRev Y p k val g.next f := by
     unfold setRev
     cases f k with
-    | none => simp only [fullRen, hρid]
+    | none => simp only [fullRen, hρid, hρp]
     | some c =>
       simp only []
       cases Y c with
-      | none => simp only [fullRen, hρid]
-      | some ce => rfl
+      | none => simp only [fullRen, hρid, hρp]
+      | some ce => simp only [fullRen, hρp]
   have hXeq : absNode X = aset (absNode Y) p k val.id (absLeaf val.body) := en.back
   have hgood := inv3_good (r := .set p k val g.next) i.wfc en.wfX i.bdc i.plc en.skel ⟨f, gs⟩ hidN i.hN0 hXeq
   have hsimX : Sim ρ N (absNode X) (absNode d') := by
     rw [res.node, hXeq]
     exact i.sim.aset gs.hp hρp hpN hρid hidN hmem (absLeaf_isLeaf gs.hleaf)
   have hYp : absNode Y p ≠ none := by rw [gs.hp]; simp
+  have hent : (fullRen ρ (.set p k val ts0)).withTs g.next = .set p k val g.next := by
+    simp only [fullRen, UOp.withTs, hρp]
   refine inv3_undo_finish (qr := inv3 H Y (.set p k val g.next)) i rfl (by rfl)
-    (by rw [hinv, hfull, ← hrev]; exact he) res.wf res.bd (hpl.mono (by omega)) res.skel hsimX
-    ⟨i.wfc, i.bdc, i.plc, hgood.1, hgood.2.1, fun t => (en.skel t).symm, hgood.2.2⟩ ?_ ?_
+    (by rw [hent, hinv, hfull, ← hrev]; exact he) res.wf res.bd (hpl.mono (by omega)) res.skel hsimX
+    ⟨i.wfc, i.bdc, i.plc, hgood.1, hgood.2.1, fun t => (en.skel t).symm, hgood.2.2,
+      by rw [inv3_par]; exact en.pb⟩ ?_ ?_
   · intro a ha; rw [hinv, setRev_addId] at ha; cases ha
   · intro a ha
     obtain ⟨hYa, q, hq, hno⟩ := i.dead a (by
@@ -269,7 +269,7 @@ theorem inv3_undo_set {H : Home} {N : Int} {ρ : Ticket → Ticket} {g : Hist} {
 
 theorem inv3_undo_rem {H : Home} {N : Int} {ρ : Ticket → Ticket} {g : Hist} {p u ts0 : Ticket}
     {ru rr : List UOp} {X Y : Doc} {more future : List Doc} {f : String → Option Ticket}
-    (i : Inv3 H N ρ g (.remove p u ts0 :: ru) rr (X :: more) Y future) (gr : GoodRemove H g.tw Y p u f) :
+    (i : Inv3 H N ρ g (.remove p u ts0 :: ru) rr (X :: more) Y future) (gr : GoodRemove H noTw Y p u f) :
     ∃ rr', Inv3 H N ρ (undo g) ru rr' more X (Y :: future) ∧
       (rr'.length = rr.length + 1 ∨ maxDepth ≤ rr'.length) := by
   obtain ⟨en, chU'⟩ := i.chU
@@ -278,7 +278,7 @@ theorem inv3_undo_rem {H : Home} {N : Int} {ρ : Ticket → Ticket} {g : Hist} {
   have hNl := i.hN
   obtain ⟨b, hbu, hbl⟩ := gr.hleaf
   have hAu := i.leafAt huN hρu hbu hbl
-  have gA : GoodRemove H g.tw g.doc p u f :=
+  have gA : GoodRemove H noTw g.doc p u f :=
     { hp := hAp, horph := horph gr.horph, hk := gr.hk, hleaf := ⟨b, hAu, hbl⟩, htw := gr.htw }
   obtain ⟨d', he, res, hpl⟩ := remove_explicit (ts0 := ts0) (ts := g.next) (src := .undoRedo) i.wf i.bd i.pl
     (by simp only [Hist.next]; omega) gA rfl
@@ -293,8 +293,8 @@ theorem inv3_undo_rem {H : Home} {N : Int} {ρ : Ticket → Ticket} {g : Hist} {
   have hfull : fullRen ρ (removeRev H Y p u g.next) = removeRev H Y p u g.next := by
     unfold removeRev
     cases Y u with
-    | none => simp only [fullRen, hρu]
-    | some ce => rfl
+    | none => simp only [fullRen, hρu, hρp]
+    | some ce => simp only [fullRen, hρp]
   have hXeq : absNode X = aremove (absNode Y) p (H.key u) u := by rw [en.back]; simp only [aexec3, gr.hp]
   have hgood := inv3_good (r := .remove p u g.next) i.wfc en.wfX i.bdc i.plc en.skel (Or.inr ⟨f, gr⟩) huN i.hN0
     (by rw [hXeq]; simp only [aexec3, gr.hp])
@@ -304,10 +304,11 @@ theorem inv3_undo_rem {H : Home} {N : Int} {ρ : Ticket → Ticket} {g : Hist} {
   have hYp : absNode Y p ≠ none := by rw [gr.hp]; simp
   have hYu : absNode Y u ≠ none := by rw [hbu]; simp
   have hent : (fullRen ρ (.remove p u ts0)).withTs g.next = .remove p u g.next := by
-    simp only [fullRen, UOp.withTs, hρu]
+    simp only [fullRen, UOp.withTs, hρu, hρp]
   refine inv3_undo_finish (qr := inv3 H Y (.remove p u g.next)) i rfl (by rfl)
     (by rw [hent, hinv, hfull, ← hrev]; exact he) res.wf res.bd (hpl.mono (by omega)) res.skel hsimX
-    ⟨i.wfc, i.bdc, i.plc, hgood.1, hgood.2.1, fun t => (en.skel t).symm, hgood.2.2⟩ ?_ ?_
+    ⟨i.wfc, i.bdc, i.plc, hgood.1, hgood.2.1, fun t => (en.skel t).symm, hgood.2.2,
+      by rw [inv3_par]; exact en.pb⟩ ?_ ?_
   · intro a ha; rw [hinv, removeRev_addId] at ha; cases ha
   · intro a ha
     obtain ⟨hYa, _⟩ := i.dead a (by
@@ -329,20 +330,23 @@ theorem inv3_undo_inc {H : Home} {N : Int} {ρ : Ticket → Ticket} {g : Hist} {
   have hρc : ρ c = c := i.fixed hcN hpar hq
   have hNl := i.hN
   have hAc : absNode g.doc c = some (.cnt l v) := i.leafAt hcN hρc hc rfl
-  obtain ⟨d', he, res, hpl⟩ := inc_explicit (tw := g.tw) (ts0 := ts0) (ts := g.next) (src := .undoRedo) i.wf i.bd
+  obtain ⟨d', he, res, hpl⟩ := inc_explicit (tw := noTw) (ts0 := ts0) (ts := g.next) (src := .undoRedo) i.wf i.bd
     i.pl (by simp only [Hist.next]; omega) hAc hwd hwv rfl
   have hinv : inv3 H Y (.increase c delta g.next) = .increase c (wrap l (-delta)) g.next := by
     simp only [inv3, hc]
   have hXeq : absNode X = ainc (absNode Y) c delta := en.back
-  have hgood := inv3_good (tw := g.tw) (r := .increase c delta g.next) i.wfc en.wfX i.bdc i.plc en.skel
+  have hgood := inv3_good (tw := noTw) (r := .increase c delta g.next) i.wfc en.wfX i.bdc i.plc en.skel
     ⟨l, v, q, fq, hc, hwd, hwv, hpar, hq⟩ hcN i.hN0 hXeq
   have hsimX : Sim ρ N (absNode X) (absNode d') := by
     rw [res.node, hXeq]
     exact i.sim.ainc hc hρc hcN
   have hYc : absNode Y c ≠ none := by rw [hc]; simp
+  have hent : (fullRen ρ (.increase c delta ts0)).withTs g.next = .increase c delta g.next := by
+    simp only [fullRen, UOp.withTs, hρc]
   refine inv3_undo_finish (qr := inv3 H Y (.increase c delta g.next)) i rfl (by rfl)
-    (by rw [hinv]; exact he) res.wf res.bd (hpl.mono (by omega)) res.skel hsimX
-    ⟨i.wfc, i.bdc, i.plc, hgood.1, hgood.2.1, fun t => (en.skel t).symm, hgood.2.2⟩ ?_ ?_
+    (by rw [hent, hinv]; simp only [fullRen, hρc]; exact he) res.wf res.bd (hpl.mono (by omega)) res.skel hsimX
+    ⟨i.wfc, i.bdc, i.plc, hgood.1, hgood.2.1, fun t => (en.skel t).symm, hgood.2.2,
+      by rw [inv3_par]; exact en.pb⟩ ?_ ?_
   · intro a ha; rw [hinv] at ha; cases ha
   · intro a ha
     obtain ⟨hYa, _⟩ := i.dead a (by
